@@ -13,6 +13,9 @@ import (
 
 func resetModels() {
 	resetFS()
+	resetClock()
+	ufApps = map[string][]ufApp{}
+	hmacLog = nil
 }
 
 func ext(name string, f externalFn)    { externals[name] = f }
@@ -229,6 +232,7 @@ func decimalOf(v symv) []value {
 		c := term.Bin("bvadd", term.Extract(7, 0, d), term.Const(8, '0'))
 		if !c.IsConst() {
 			decProv[c] = decProvEntry{v.t, k, n, neg}
+			bsetMemo[c] = charsetSet("digit")
 		}
 		out = append(out, byteVal(c))
 	}
@@ -580,6 +584,7 @@ func init() {
 		o := a[0].(*hashObj)
 		var d []value
 		if o.kind == "hmacsha1" {
+			hmacLog = append(hmacLog, [2][]value{o.key, append([]value{}, o.buf...)})
 			d = ufHmacSHA1(o.key, o.buf)
 		} else {
 			d = ufHash(o.kind, o.bits, o.buf)
@@ -608,6 +613,20 @@ func init() {
 	ext("runtime.SetFinalizer", nopExt)
 	ext("runtime.KeepAlive", nopExt)
 	ext("time.Sleep", nopExt)
+}
+
+var hmacLog [][2][]value
+
+func init() {
+	// gosym_HMACInput(i, part): the key (part 0) or message (part 1) of the i-th HMAC computed by the code under test
+	apiExt["gosym_HMACInput"] = func(fr *frame, a []value) value {
+		i, part := int(asInt64(a[0])), int(asInt64(a[1]))
+		if i < 0 || i >= len(hmacLog) {
+			return []value(nil)
+		}
+		return append([]value{}, hmacLog[i][part]...)
+	}
+	apiExt["gosym_HMACCount"] = func(fr *frame, a []value) value { return len(hmacLog) }
 }
 
 type hashObj struct {
